@@ -88,15 +88,17 @@ pub fn campaign<P: Property>(p: &P, spec: &FuzzSpec<P::Case>, seed: u64, open_si
     let lf_seed = if seed % (u32::MAX as u64) == 0 { 1 } else { seed % (u32::MAX as u64) };
     let run_log = format!("{dir}/run.log");
     let t0 = std::time::Instant::now();
+    // hard wall-clock limit on the whole campaign (process group killed): a wedged fuzzing process must not
+    // keep the check from finishing
     let st = run_logged(
-        Command::new("cargo").current_dir(&fuzz_dir).env("CARGO_NET_OFFLINE", "true").args(["+nightly", "fuzz", "run", "--fuzz-dir", &fd, "-s", "none", spec.target, &corpus, "--"]).args([
+        Command::new("timeout").current_dir(&fuzz_dir).env("CARGO_NET_OFFLINE", "true").env("VERIF_FUZZ_ARTIFACTS", &arts).args(["-k", "10", &format!("{}", secs + 240), "cargo", "+nightly", "fuzz", "run", "--fuzz-dir", &fd, "-s", "none", spec.target, &corpus, "--"]).args([
             format!("-artifact_prefix={arts}/"),
             format!("-fork={jobs}"),
             "-ignore_crashes=1".into(),
             "-ignore_timeouts=1".into(),
             "-ignore_ooms=1".into(),
             format!("-max_total_time={secs}"),
-            "-timeout=30".into(),
+            "-timeout=300".into(),
             "-rss_limit_mb=4096".into(),
             "-max_len=8192".into(),
             "-len_control=0".into(),
@@ -169,7 +171,8 @@ pub fn campaign<P: Property>(p: &P, spec: &FuzzSpec<P::Case>, seed: u64, open_si
         let (k, _) = classify(p, &mut w, &cj, false, open_sigs, hang_cleared);
         match k {
             ResKind::Fail { sig, detail } => {
-                if kind != "crash" && (sig == "hang" || sig.starts_with("crash:")) && asks_for_work(&data) {
+                // (an input abandoned by the in-target time limit is stored by libFuzzer as a crash- file as well)
+                if (sig.starts_with("hang") || (kind != "crash" && sig.starts_with("crash:"))) && asks_for_work(&data) {
                     // slow / large, but the document asks for repeated work: not decidable here
                     *outcome.entry("heavy-document-with-explicit-work(not judged)".into()).or_default() += 1;
                     continue;
